@@ -208,6 +208,22 @@ func checkC01(P *Prog, r *Result) {
 		}
 	}
 	r.floor("C01/child-clean", 30)
+	cntU := map[string]int{}
+	for _, s := range P.ownUseSites(ca) {
+		top := s.at.Parent()
+		for top.Parent() != nil {
+			top = top.Parent()
+		}
+		k := fname(top) + "#" + s.kind
+		cntU[k]++
+		c := fmt.Sprintf("%s@%d", k, cntU[k])
+		if len(s.dirty) > 0 {
+			r.bad("C01/own-context-clean", c, P.ipos(s.at), fmt.Sprintf("the node reports its own issues / runs its own tests on a context that may still carry %s from a child: its own constraints can be skipped silently", flagNames(s.dirty)))
+		} else {
+			r.ok("C01/own-context-clean", c, P.ipos(s.at), "own context is catch-clean")
+		}
+	}
+	r.floor("C01/own-context-clean", 20)
 	r.Extra["schema_ctx_constructors"] = len(ca.ctors)
 	if len(ca.ctors) < 2 {
 		r.broken("vacuous: %d SchemaCtx constructors recognised (floor 2)", len(ca.ctors))
@@ -590,6 +606,27 @@ func checkC05(P *Prog, r *Result) {
 	}
 	r.floor("C05/confinement", 60)
 
+	// own-context-clean: kinds without Catch (struct, slice, pointer, custom, preprocess) report their own
+	// issues, call their own tests/transforms and test Exit on their own context: none of the flags may have
+	// been left behind there by a child
+	cntU := map[string]int{}
+	for _, s := range P.ownUseSites(ca) {
+		top := s.at.Parent()
+		for top.Parent() != nil {
+			top = top.Parent()
+		}
+		k := fname(top) + "#" + s.kind
+		cntU[k]++
+		c := fmt.Sprintf("%s@%d", k, cntU[k])
+		r.sawFunc(fname(s.at.Parent()))
+		if len(s.dirty) > 0 {
+			r.bad("C05/own-context-clean", c, P.ipos(s.at), fmt.Sprintf("the node uses its own context here while %s may still be set on it by a catching child: the enclosing node's own issue is swallowed / its tests are cut short", flagNames(s.dirty)))
+		} else {
+			r.ok("C05/own-context-clean", c, P.ipos(s.at), "own context is catch-clean")
+		}
+	}
+	r.floor("C05/own-context-clean", 20)
+
 	// flag-writers
 	allowed := map[*ssa.Function]bool{}
 	for _, pl := range R.Pipelines {
@@ -816,7 +853,13 @@ func checkC09(P *Prog, r *Result) {
 			continue
 		}
 		r.sawFunc(fname(fn))
-		sites, _ := ca.run(fn, nil)
+		allSites, _ := ca.run(fn, nil)
+		var sites []dispatchSite
+		for _, s := range allSites {
+			if s.kind == "dispatch" {
+				sites = append(sites, s)
+			}
+		}
 		for li, l := range loops {
 			nLoops++
 			lname := fmt.Sprintf("%s#range@%d:%s", fname(fn), li+1, typeStr(l.rng.X.Type()))
